@@ -294,14 +294,14 @@ PROPS = {
     "C01": {
         "level": "exploration",
         "jobs": lambda tier, seed: ports_jobs("c01", tier, seed, conc="c01c"),
-        "rule": "sequential: random API histories (create/drop publisher and subscriber, send_copy, loan/write/send, receive, release, update_connections, has_samples) over 1-3 publishers x 1-3 subscribers with random QoS (buffer 1-4, history 0-3, borrow 1-3, overflow on/off, loans 1-3) on local and ipc services, compared with an exact reference model after every step (debug, release, ASan); concurrent: publisher and subscriber threads on one service with random delays at hooked atomics, pairwise delivery rules over the logs (debug, TSan). Non-trivial = history with an overflow eviction, a late joiner with history, a discard on a full buffer or a documented loss, and at least one receive; distinct = distinct (config, kinds of events) / (config, received sequence).",
+        "rule": "payloads: fixed-size [u64; 4] and, in every third history, slices [u64] of 1-6 elements whose length and every element are functions of the sample id (statically sized segment); sequential: random API histories (create/drop publisher and subscriber, send_copy, loan/write/send, receive, release, update_connections, has_samples) over 1-3 publishers x 1-3 subscribers with random QoS (buffer 1-4, history 0-3, borrow 1-3, overflow on/off, loans 1-3) on local and ipc services, compared with an exact reference model after every step (debug, release, ASan); concurrent: publisher and subscriber threads on one service with random delays at hooked atomics, pairwise delivery rules over the logs (debug, TSan). Non-trivial = history with an overflow eviction, a late joiner with history, a discard on a full buffer or a documented loss, and at least one receive; distinct = distinct (config, kinds of events) / (config, received sequence).",
         "assumptions": COMMON_ASSUMPTIONS + ["fixed-size payload [u64;4]; slices and growing segments are exercised by C15", "cross-publisher order is unspecified and not checked"],
         "floor": (300, 50),
     },
     "C02": {
         "level": "exploration",
         "jobs": lambda tier, seed: ports_jobs("c02", tier, seed),
-        "rule": "the C01 history generator with loans kept unsent and received samples kept across further steps (also past the drop of their subscriber): every held sample and unsent loan carries a unique pattern that is re-verified after every step; at the end of every history a saturation probe drives each publisher to the worst case (all buffers full, every subscriber at its borrow limit, history full) and then takes all max_loaned_samples loans, twice. Non-trivial = a history in which two or more references (held samples, unsent loans) existed at once and the saturation probe ran; distinct = distinct (config, kinds of events).",
+        "rule": "payloads: fixed-size [u64; 4] and, in every third history, slices [u64] of 1-6 elements whose length and every element are functions of the sample id (statically sized segment); the C01 history generator with loans kept unsent and received samples kept across further steps (also past the drop of their subscriber): every held sample and unsent loan carries a unique pattern that is re-verified after every step; at the end of every history a saturation probe drives each publisher to the worst case (all buffers full, every subscriber at its borrow limit, history full) and then takes all max_loaned_samples loans, twice. Non-trivial = a history in which two or more references (held samples, unsent loans) existed at once and the saturation probe ran; distinct = distinct (config, kinds of events).",
         "assumptions": COMMON_ASSUMPTIONS + ["request/response payload lifetime is covered by the C11 histories (held responses are re-verified after every step)"],
         "floor": (300, 50),
     },
